@@ -187,7 +187,7 @@ class AllCallbacksMonitor(ConvergenceMonitor):
     def final(self, model, w0, w, group):
         cbs = self.cbs_of(model, w)
         for sid in range(w0.nsub):
-            if sid not in cbs:
+            if sid not in cbs and ('z', sid) not in cbs and ('m', sid) not in cbs and ('v', sid) not in cbs:
                 return core.Violation('%s callback of submission %d never fired although the cluster is healthy and has moved on' % (
                     self.prop, sid), sig='callback-lost')
         return None
